@@ -60,6 +60,8 @@ def run(ctx):
     for c in cases:
         o = outs[c["id"]]
         ctx.evaluations += 1
+        if o.get("skip"):
+            continue
         if o.get("crash"):
             ctx.violation({"clause": "crash", "error": o.get("error", ""), "site": o.get("site", "")},
                           "%s\n?- %s : %s" % ("\n".join(r_clause(cl) for cl in c["prog"]), T.render(c["q"]), o["crash"]),
